@@ -635,7 +635,8 @@ func lostWakeup(stacks string) bool {
 				alive = true
 			}
 		}
-		if !alive && (strings.Contains(b, "minutes]") || hangLimit < time.Minute) {
+		// (no test of the wait time in the header: the runtime only updates it at a GC)
+		if !alive {
 			return true
 		}
 	}
